@@ -95,6 +95,7 @@ def run(tier, seed, report):
                 shutil.rmtree(root)
                 stats["kinds"]["path-reused"] = stats["kinds"].get("path-reused", 0) + 1
             populated = False
+            damaged = None
             pid, data = "pid-%d" % i, b"payload %d" % i
             if scenario in ("reopen", "dirs-no-yaml"):
                 st = FileHashStore(properties={"store_path": root, "store_depth": d0, "store_width": w0,
@@ -105,6 +106,13 @@ def run(tier, seed, report):
                     open(src, "wb").write(data)
                     st.store_object(pid, src)
                     st.store_metadata(pid, src)
+                damaged = None
+                if scenario == "reopen" and rng.random() < 0.15:
+                    # the configuration file has lost one of its keys (hand-edited, truncated, written by an older version)
+                    damaged = rng.choice(["store_depth", "store_width", "store_metadata_namespace"])
+                    yp = os.path.join(root, "hashstore.yaml")
+                    lines = [l for l in open(yp).read().split("\n") if not l.startswith(damaged + ":")]
+                    open(yp, "w").write("\n".join(lines))
                 if scenario == "dirs-no-yaml":
                     os.remove(os.path.join(root, "hashstore.yaml"))
                     if rng.random() < 0.3:
@@ -121,6 +129,9 @@ def run(tier, seed, report):
             present = {"store_path": True, "store_depth": True, "store_width": True, "store_algorithm": True,
                        "store_metadata_namespace": True}
             extra = {}
+            if damaged is not None and rng.random() < 0.7:
+                # mostly: the value that differs is the one the file no longer holds
+                kind = {"store_depth": "depth", "store_width": "width", "store_metadata_namespace": "ns"}[damaged]
             if kind == "swap":
                 # the right values under the wrong keys
                 dv, wv = rng.choice([(w0, d0), (str(w0), str(d0)), (w0, str(d0))])
@@ -185,7 +196,15 @@ def run(tier, seed, report):
             # ---- the property's own oracle (independent of the model)
             problems = {}
             complete = all(k in props and props[k] is not None for k in vals)
-            if yaml_exists:
+            if yaml_exists and damaged is not None:
+                # the model has no notion of an incomplete file; the property still says: a value that differs from the
+                # one the store was created with is never accepted (what an equal value does is left open)
+                mclass = real
+                differs = {"store_depth": py_int(dv) != d0, "store_width": py_int(wv) != w0,
+                           "store_metadata_namespace": nv != n0}[damaged] or av != a0 or py_int(dv) != d0 or py_int(wv) != w0 or nv != n0
+                if differs and real == "ok":
+                    problems["accepted a different configuration (configuration file without %s)" % damaged] = ("error", real)
+            elif yaml_exists:
                 should_open = complete and py_int(dv) == d0 and py_int(wv) == w0 and av == a0 and nv == n0 \
                     and py_int(dv) is not None and py_int(wv) is not None
                 if should_open and real != "ok":
@@ -201,7 +220,7 @@ def run(tier, seed, report):
                 b, a = before or {}, after or {}
                 problems["refused open changed the directory"] = (
                     sorted(set(b) - set(a))[:4], sorted(k for k in a if a.get(k) != b.get(k))[:4])
-            if real == "ok" and yaml_exists:
+            if real == "ok" and yaml_exists and damaged is None:
                 changed = sorted(k for k in set(before) | set(after) if before.get(k) != after.get(k))
                 if changed:
                     problems["accepted reopen changed the directory"] = ([], changed[:4])
